@@ -113,6 +113,13 @@ def traceOp (args : List String) : String :=
       match o.splitOn ":" with
       | ["c", name, dt, r] => go (step t (.call name (parseRat dt) (r == "1"))) rest acc
       | ["x"] => go (step t .clear) rest acc
+      | ["n", names, incs] =>
+        -- re-entrant chain `f>g>f`, increments `s1,…,sk,ek,…,e0`: run on the clock/stack machine
+        let ns := splitOnC names '>'
+        let qs := (splitOnC incs ',').map parseRat
+        let k := ns.length - 1
+        let st := nrun { table := t } (chainEvents ns (qs.take k) (qs.drop k))
+        go st.table rest acc
       | ["q", avg, mh] =>
         let mhv : Option Int := if mh == "-" then none else some (parseInt! mh)
         let res := getTrace t (avg == "1") mhv
